@@ -143,15 +143,15 @@ func (s c09Spec) sexp() string { return "(build " + c09SexpBody(s.Ctor, s.Calls)
 // type-directed values
 
 type c09Gen struct {
-	r   *rng
-	ss  ast.Schemas
-	bs  ast.Builders
-	pkg string
-	py  bool // Python lab: no date-time strings, no plain struct documents (they need class instances)
-	arrMax int // arrays of a document have 0..arrMax-1 elements (default 3)
-	dfltPct int // probability (percent) of drawing the declared default of a scalar that has one
-	hints  map[string][]JV // "Object.member" → values the veneers single out (constants pinned by `initialize`)
-	topHints map[string]JV // member → the constant the builder under test pins itself (top-level documents belong to that builder)
+	r        *rng
+	ss       ast.Schemas
+	bs       ast.Builders
+	pkg      string
+	py       bool            // Python lab: no date-time strings, no plain struct documents (they need class instances)
+	arrMax   int             // arrays of a document have 0..arrMax-1 elements (default 3)
+	dfltPct  int             // probability (percent) of drawing the declared default of a scalar that has one
+	hints    map[string][]JV // "Object.member" → values the veneers single out (constants pinned by `initialize`)
+	topHints map[string]JV   // member → the constant the builder under test pins itself (top-level documents belong to that builder)
 }
 
 func (g *c09Gen) arrayLen() int {
@@ -454,6 +454,7 @@ func c09ConstJV(v any) JV {
 // plain draws a JSON value of type t (an argument that is not a builder). ok=false: the type is
 // outside what the generator handles.
 func (g *c09Gen) plain(t ast.Type, depth int, violate bool) (v JV, violated bool, ok bool) {
+	t = c09NullableView(t)
 	switch t.Kind {
 	case ast.KindScalar:
 		return g.scalar(t, violate)
@@ -566,17 +567,110 @@ func (g *c09Gen) structDoc(o ast.Object, depth int, violate bool) (JV, bool, boo
 			return jNull(), false, false
 		}
 		violated = violated || vi
+		if !vi && !violate {
+			v = g.drawStructLevelDefault(ft, v)
+		}
 		out.set(f.Name, v)
 	}
 	return out, violated, true
 }
 
-// hasOwnConstraints: does a plain value of type t carry a constraint that can be violated
+// c09AnyJV: a default value as the IR carries it (maps and lists of scalars) as JSON
+func c09AnyJV(x any) (JV, bool) {
+	switch v := x.(type) {
+	case map[string]any:
+		keys := make([]string, 0, len(v))
+		for k := range v {
+			keys = append(keys, k)
+		}
+		sort.Strings(keys)
+		out := jObj()
+		for _, k := range keys {
+			e, ok := c09AnyJV(v[k])
+			if !ok {
+				return jNull(), false
+			}
+			out.set(k, e)
+		}
+		return out, true
+	case []any:
+		out := jArr()
+		for _, e := range v {
+			j, ok := c09AnyJV(e)
+			if !ok {
+				return jNull(), false
+			}
+			out.A = append(out.A, j)
+		}
+		return out, true
+	case nil:
+		return jNull(), false
+	}
+	return c09ConstJV(x), true
+}
+
+// drawStructLevelDefault: a member that references a struct and declares a default OBJECT of its own (which takes
+// precedence over the defaults of the referenced struct's members): the drawn value sometimes IS that declared
+// default (completed with the members' own defaults), sometimes agrees with it on some members — the values for
+// which "equal to the default" decides what builders start from and what converters leave out.
+func (g *c09Gen) drawStructLevelDefault(ft ast.Type, drawn JV) JV {
+	if g.dfltPct <= 0 || ft.Kind != ast.KindRef || ft.Default == nil || drawn.K != 'o' {
+		return drawn
+	}
+	dm, isMap := ft.Default.(map[string]any)
+	ro, found := g.object(ft.Ref)
+	if !isMap || !found || ro.Type.Kind != ast.KindStruct {
+		return drawn
+	}
+	whole := g.r.chance(g.dfltPct + 10)
+	for _, rf := range ro.Type.Struct.Fields {
+		if _, present := drawn.get(rf.Name); !present {
+			continue
+		}
+		if dv, ok := dm[rf.Name]; ok {
+			if j, ok := c09AnyJV(dv); ok && (whole || g.r.chance(g.dfltPct)) {
+				drawn.set(rf.Name, j)
+			}
+		} else if whole && rf.Type.Default != nil {
+			if j, ok := c09AnyJV(rf.Type.Default); ok {
+				drawn.set(rf.Name, j)
+			}
+		}
+	}
+	return drawn
+}
+
+// c09NullableView: a disjunction whose only non-null branch is T means "T or null" — in whatever order the source
+// spells the two branches, and whether or not a compiler pass rewrote it into a nullable T. The generator and the
+// violation flags read such a parameter as the nullable T it denotes.
+func c09NullableView(t ast.Type) ast.Type {
+	if t.Kind != ast.KindDisjunction || t.Disjunction == nil {
+		return t
+	}
+	var rest []ast.Type
+	nulls := 0
+	for _, b := range t.Disjunction.Branches {
+		if b.IsNull() {
+			nulls++
+		} else {
+			rest = append(rest, b)
+		}
+	}
+	if nulls == 0 || len(rest) != 1 {
+		return t
+	}
+	r := rest[0]
+	r.Nullable = true
+	return r
+}
+
+// canViolate: does a plain value of type t carry a constraint that can be violated
 // (directly on a scalar, or through aliases / collections)?
 func (g *c09Gen) canViolate(t ast.Type, depth int) bool {
 	if depth > 4 {
 		return false
 	}
+	t = c09NullableView(t)
 	switch t.Kind {
 	case ast.KindScalar:
 		return t.Scalar.Value == nil && len(t.Scalar.Constraints) > 0 && !t.HasHint(ast.HintStringFormatDateTime)
@@ -1149,6 +1243,7 @@ func (g *c09Gen) violates(t ast.Type, v JV, depth int) bool {
 	if depth > 8 {
 		return false
 	}
+	t = c09NullableView(t)
 	switch t.Kind {
 	case ast.KindScalar:
 		for _, c := range t.Scalar.Constraints {
